@@ -6,6 +6,7 @@ import (
 	"bytes"
 	"context"
 	"crypto/rand"
+	"crypto/tls"
 	"encoding/base64"
 	"encoding/hex"
 	"encoding/json"
@@ -441,9 +442,104 @@ func runC07Seq(r *ev.Run, c c07SeqCase) {
 	r.Eval(fmt.Sprintf("seq|%+v", c), true)
 }
 
+// c07SharedCase: one *tls.Config without ServerName (only the trust anchors) is handed to two Clients for different
+// hosts. Both servers present a certificate that is valid for the first host only.
+type c07SharedCase struct {
+	Via    string `json:"via"` // option: WithTLSConfig | setter: SetTLSConfig after NewClient
+	Policy string `json:"policy"`
+	Shared bool   `json:"shared_tls_config"`
+}
+
+func runC07Shared(r *ev.Run, c c07SharedCase) {
+	viol := func(key, what string, obs any) {
+		r.Violate(ev.Violation{Key: key, What: what, Case: c, Observed: obs})
+	}
+	tm := gen.TLS()
+	shared := &tls.Config{RootCAs: tm.Roots, MinVersion: tls.VersionTLS12}
+	type side struct {
+		host, ip string
+		sess     *refsmtp.Session
+		err      error
+	}
+	sides := []*side{{host: "localhost", ip: "127.0.0.1"}, {host: "127.0.0.2", ip: "127.0.0.2"}}
+	for _, sd := range sides {
+		ln, err := net.Listen("tcp", sd.ip+":0")
+		if err != nil {
+			r.HarnessError("listen: " + err.Error())
+			return
+		}
+		sessCh := make(chan *refsmtp.Session, 1)
+		go func() {
+			conn, err := ln.Accept()
+			_ = ln.Close()
+			if err != nil {
+				close(sessCh)
+				return
+			}
+			sessCh <- refsmtp.Serve(conn, &refsmtp.Config{AllowUTF8: true, TLS: gen.ServerTLS(tm.OnlyLocalhost, 0, 0), Caps: func(_ int, on bool) []string {
+				if on {
+					return []string{"8BITMIME"}
+				}
+				return []string{"8BITMIME", "STARTTLS"}
+			}}, 0)
+		}()
+		pol := mail.TLSMandatory
+		if c.Policy == "opportunistic" {
+			pol = mail.TLSOpportunistic
+		}
+		opts := []mail.Option{mail.WithPort(ln.Addr().(*net.TCPAddr).Port), mail.WithTimeout(3 * time.Second), mail.WithHELO("client.verif.example"), mail.WithTLSPolicy(pol)}
+		if c.Via == "option" {
+			opts = append(opts, mail.WithTLSConfig(shared))
+		}
+		cl, err := mail.NewClient(sd.host, opts...)
+		if err != nil {
+			_ = ln.Close()
+			r.HarnessError("C07 shared NewClient: " + err.Error())
+			return
+		}
+		if c.Via == "setter" {
+			if err := cl.SetTLSConfig(shared); err != nil {
+				r.HarnessError("SetTLSConfig: " + err.Error())
+				return
+			}
+		}
+		msg, _ := simpleMsg("c07t", "sender@verif.example", []string{"rcpt@verif.example"}, "quoted-printable", "confidential\r\n")
+		ctx, cancel := context.WithTimeout(context.Background(), 8*time.Second)
+		sd.err = cl.DialAndSendWithContext(ctx, msg)
+		cancel()
+		_ = ln.Close()
+		select {
+		case sd.sess = <-sessCh:
+		case <-time.After(2 * time.Second):
+		}
+		if sd.sess != nil {
+			sd.sess.Stop()
+			<-sd.sess.Done
+		}
+	}
+	r.Count("shared_tls_config_sequences", 1)
+	b := sides[1]
+	if b.sess != nil {
+		cmds, commits, _ := b.sess.Snapshot()
+		inTLS := 0
+		for _, cr := range cmds {
+			if cr.TLS {
+				inTLS++
+			}
+		}
+		if b.sess.TLSOK && inTLS > 0 {
+			viol("handshake-with-certificate-for-another-host", fmt.Sprintf("the server for host %s presented a certificate that is only valid for %q; the client completed the handshake and went on with %d commands (%d messages committed); the first Client of the shared *tls.Config was for %q (its result: %v)", b.host, "localhost", inTLS, len(commits), sides[0].host, sides[0].err), b.sess.Transcript())
+		}
+	}
+	if b.err == nil {
+		viol("delivered-to-host-with-foreign-certificate", "DialAndSend to "+b.host+" succeeded although its certificate is valid for another host only", nil)
+	}
+	r.Eval(fmt.Sprintf("shared|%+v", c), true)
+}
+
 func runC07(r *ev.Run, rep *ev.ReplayDoc) ev.Summary {
 	sum := ev.Summary{
-		Rule: "matrix policy {mandatory, opportunistic, none, implicit (WithSSL; also WithSSLPort / SetSSLPort after an explicit WithPort, and the fixed fallback port)} x auth type (all 13; custom = a harness mechanism without password) x host {localhost, 127.0.0.1, 127.0.0.2 (a non-localhost name reachable on loopback; certificate SANs cover all three)} x server behaviour {STARTTLS advertised or not; STARTTLS reply 220 / 454 / 502 / garbage; handshake ok / wrong-name certificate / untrusted certificate / garbage bytes} x 4 advertised AUTH lists, over real loopback TCP with the library's own dialers (tls.Dialer for implicit TLS). thorough enumerates the full matrix (minus combinations that cannot differ), quick a deterministic covering subset. The tap below the TLS layer records every byte before the first TLS record. Plus sequences on one live Client: dial under NoTLS / opportunistic, SetTLSPolicy(TLSMandatory), dial again (with and without Close in between), send. distinct by case",
+		Rule: "matrix policy {mandatory, opportunistic, none, implicit (WithSSL; also WithSSLPort / SetSSLPort after an explicit WithPort, and the fixed fallback port)} x auth type (all 13; custom = a harness mechanism without password) x host {localhost, 127.0.0.1, 127.0.0.2 (a non-localhost name reachable on loopback; certificate SANs cover all three)} x server behaviour {STARTTLS advertised or not; STARTTLS reply 220 / 454 / 502 / garbage; handshake ok / wrong-name certificate / untrusted certificate / garbage bytes} x 4 advertised AUTH lists, over real loopback TCP with the library's own dialers (tls.Dialer for implicit TLS). thorough enumerates the full matrix (minus combinations that cannot differ), quick a deterministic covering subset. The tap below the TLS layer records every byte before the first TLS record. Plus sequences on one live Client: dial under NoTLS / opportunistic, SetTLSPolicy(TLSMandatory), dial again (with and without Close in between), send; and one *tls.Config without ServerName shared by two Clients for different hosts whose servers both present the certificate of the first host. distinct by case",
 		Assumptions: []string{
 			"'localhost names' are localhost, 127.0.0.1, ::1; 127.0.0.2 stands for any other host",
 			"credentials are unique 16-18 character random strings; searched raw, base64 (3 alphabets), hex, and inside every base64 token of the cleartext",
@@ -452,6 +548,11 @@ func runC07(r *ev.Run, rep *ev.ReplayDoc) ev.Summary {
 		Exhaustive: r.Thorough(),
 	}
 	if rep != nil {
+		var sh c07SharedCase
+		if err := json.Unmarshal(rep.Case, &sh); err == nil && sh.Shared {
+			runC07Shared(r, sh)
+			return sum
+		}
 		var q c07SeqCase
 		if err := json.Unmarshal(rep.Case, &q); err == nil && q.Seq {
 			runC07Seq(r, q)
@@ -548,6 +649,12 @@ func runC07(r *ev.Run, rep *ev.ReplayDoc) ev.Summary {
 		}
 	}
 	r.ParallelN(8, len(seqs), func(i int) { runC07Seq(r, seqs[i]) })
+	// one *tls.Config value shared by Clients for different hosts
+	for _, via := range []string{"option", "setter"} {
+		for _, pol := range []string{"mandatory", "opportunistic"} {
+			runC07Shared(r, c07SharedCase{Via: via, Policy: pol, Shared: true})
+		}
+	}
 	sum.Extra = map[string]any{"matrix_cells_run": len(cases), "policy_change_sequences": len(seqs)}
 	return sum
 }
